@@ -185,7 +185,12 @@ def guess_field(hm, toks, state, fields):
     return "+".join(fields)
 
 
-DOC_TEMPLATES = ["{c}", "para {c} text", "# head {c}", "> quote {c}", "- item {c}", "`{c}`", "```{c}\ncode {c}\n```", "    {c}", "[l](u \"{c}\")", "[l](<{c}>)", "![{c}](u)",
+# every inline plugin construct inside an image description (whose rendering is tag-stripped and put into alt="..." as it is: each
+# construct's own renderer must have escaped quotes too), directly, inside a nested link, and through a reference
+ALT_TEMPLATES = ["![${c}$](x.png)", "![~~{c}~~](x.png)", "![=={c}==](x.png)", "![^^{c}^^](x.png)", "![^{c}^ ~{c}~](x.png)", "![>!{c}!<](x.png)", "![[k({c})]](x.png)", "![a $x{c}y$ b][r]\n\n[r]: /i.png",
+                 "[![${c}$](x.png)](/u)", "![http://e.x/{c}](x.png)", "![[l $m{c}$](/u)](x.png)", "![*e $q{c}$*](x.png)", "![<http://e.x/{c}>](x.png)", "![a\\\n{c}  \nb](x.png)", "![&quot;{c}&#34;](x.png)",
+                 "*[ab]: t{c}\n\n![ab {c}](x.png)", "![x[^n]{c}](x.png)\n\n[^n]: note {c}", "# ![${c}$](x.png)\n\n.. toc::", "| ![${c}$](x.png) |\n|---|\n| ![~~{c}~~](y.png) |"]
+DOC_TEMPLATES = ALT_TEMPLATES + ["{c}", "para {c} text", "# head {c}", "> quote {c}", "- item {c}", "`{c}`", "```{c}\ncode {c}\n```", "    {c}", "[l](u \"{c}\")", "[l](<{c}>)", "![{c}](u)",
                  "[ref]: /u \"{c}\"\n\n[ref]", "<{c}>", "[{c}]", "*{c}*", "| a | {c} |\n|---|---|\n| {c} | b |", "term {c}\n: def {c}", "text[^1]\n\n[^1]: note {c}", "*[{c}]: x\n{c}",
                  "${c}$", "$$\n{c}\n$$", "[a({c})]", ">! {c}", "==a {c}==", "~~{c}~~", "- [ ] {c}", "http://a.b/{c}", "<a href=\"{c}\">", "<div {c}>\n</div>", "<!-- {c} -->",
                  ".. note:: {c}\n   :class: {c}\n\n   body {c}", "```{{note}} {c}\n:class: {c}\nbody {c}\n```", ".. image:: {c}\n   :alt: {c}\n   :width: 10{c}\n   :target: {c}\n   :align: {c}",
